@@ -990,7 +990,41 @@ def shard_scale_equiv(shard):
 # occurrences equals the one in the skeleton (brute force there).  Oracle: the library's count (and
 # `contains`) on all eight images of (mesh pattern, long text) equals that number.
 
-SKELETONS = {}     # maxlen -> list, filled before forking
+SKELETONS = {}     # family name -> list of (patt, sigma, j, direction, cells, both), filled before forking
+
+
+def run_box(patt, sigma, j):
+    """The box of every occurrence of patt in sigma in which point j (hence the whole run) lies, if
+    it is the same for all occurrences, else None."""
+    boxes = {R.cell_of(o, sigma, j) for o in R.occurrences(patt, sigma)}
+    return boxes.pop() if len(boxes) == 1 else None
+
+
+def long_mesh_families(maxlen):
+    """full   : every skeleton, all 16 single-box shadings, count and contains   (texts <= 40)
+       medium : every skeleton, the box the run lies in and one control box ((x, y+2 mod 4)), count
+       thin   : skeletons whose run lies in a box that is not a corner of the grid (there the
+                classification of a bystander depends on how the candidate's positions / values
+                are ordered); the run's box and the control box; count
+       thinner: thin with increasing runs only and the run's box only (quick tier, long texts);
+                the monotone patterns (cheap) keep all their skeletons"""
+    sk = X.long_mesh_skeletons(maxlen)
+    cells = R.all_cells(3)
+    fam = {"full": [], "medium": [], "thin": [], "thinner": []}
+    for patt, sigma, j, d in sk:
+        fam["full"].append((patt, sigma, j, d, cells, True))
+        box = run_box(patt, sigma, j)
+        if box is None:
+            continue
+        two = [box, (box[0], (box[1] + 2) % 4)]
+        fam["medium"].append((patt, sigma, j, d, two, False))
+        monotone = patt in ((0, 1, 2), (2, 1, 0))
+        corner = box[0] in (0, 3) and box[1] in (0, 3)
+        if monotone or not corner:
+            fam["thin"].append((patt, sigma, j, d, two, False))
+            if monotone or d == "inc":
+                fam["thinner"].append((patt, sigma, j, d, [box], False))
+    return fam
 
 
 def case_long_mesh(part, case):
@@ -1013,15 +1047,15 @@ def case_long_mesh(part, case):
 
 
 def shard_long_mesh(shard):
-    n, maxlen, lo, hi = shard
+    n, name, lo, hi = shard
     lib = _lib()
     part = Partial()
-    cells = R.all_cells(3)
-    for patt, sigma, j, d in SKELETONS[maxlen][lo:hi]:
+    for patt, sigma, j, d, cells, both in SKELETONS[name][lo:hi]:
         if n < len(sigma):
             continue
         t = X.inflate_point(sigma, j, n - len(sigma) + 1, d)
         timgs = _images(lib.Perm(t), CANON_PERM)
+        unshaded = len(R.occurrences(patt, sigma))
         for cell in cells:
             exp = len(R.mesh_occurrences(patt, [cell], sigma))
             imgs = _images(lib.MeshPatt(lib.Perm(patt), [cell]), CANON_MESH)
@@ -1032,13 +1066,13 @@ def shard_long_mesh(shard):
                 ok = False
                 if not isinstance(P, Exception) and not isinstance(T, Exception):
                     try:
-                        ok = (P.count_occurrences_in(T), bool(T.contains(P))) == (exp, exp > 0)
+                        ok = P.count_occurrences_in(T) == exp and \
+                            (not both or bool(T.contains(P)) == (exp > 0))
                     except Exception:  # noqa
                         ok = False
                 if not ok:
                     _loop_failed(part, "long_mesh_equiv", case_long_mesh, case, "count differs")
-            unshaded = len(R.occurrences(patt, sigma))
-            part.add(8, 8 if 0 < exp < unshaded else 0)
+            part.add(8, 8 if exp < unshaded else 0)
     return part
 
 
@@ -1633,19 +1667,36 @@ def run(ctx, only=None):
         lsizes = sorted(set(base_sizes + sizes_around(named, 8, cap)))
         if quick:       # above 300 only c and c+1 for a named constant c
             lsizes = [n for n in lsizes if n <= 300 or n in named or n - 1 in named]
-        maxlen = 4 if quick else 5
-        SKELETONS[maxlen] = X.long_mesh_skeletons(maxlen)
-        nsk = len(SKELETONS[maxlen])
+        maxlen = 4 if quick else 5          # skeleton length for texts up to 110; 4 above
+        for ml in {4, maxlen}:
+            for k, v in long_mesh_families(ml).items():
+                SKELETONS["%s, skeletons <= %d" % (k, ml)] = v
+        if not quick:   # above 600 only c and c+1 for a named constant c
+            lsizes = [n for n in lsizes if n <= 600 or n in named or n - 1 in named]
+
+        def family_for(n):
+            if n <= 40:
+                return "full, skeletons <= %d" % maxlen
+            if n <= 110:
+                return "medium, skeletons <= %d" % maxlen
+            if quick or n > 600:
+                return "thinner, skeletons <= 4"
+            return "thin, skeletons <= 4"
         shards = []
         for n in sorted(lsizes, reverse=True):       # the long ones first (load balance)
-            per = 3 if n > 300 else (12 if n > 40 else 48)
-            shards += [(n, maxlen, lo, min(nsk, lo + per)) for lo in range(0, nsk, per)]
+            name = family_for(n)
+            total = len(SKELETONS[name])
+            per = 1 if n > 300 else (2 if n > 110 else (8 if n > 40 else 24))
+            shards += [(n, name, lo, min(total, lo + per)) for lo in range(0, total, per)]
         ctx.pmap(shard_long_mesh, shards)
         ctx.bounds["long_mesh_equiv"] = {
-            "constants_in_code": named, "text_lengths": lsizes, "cap": cap,
-            "skeletons": "%d (pattern of length 3, skeleton of length <= %d containing it, point, run "
-                         "direction) with the run a pure bystander" % (nsk, maxlen),
-            "shadings": "each of the 16 single boxes", "symmetries": 8}
+            "constants_in_code": named, "cap": cap,
+            "text_lengths": {n: family_for(n) for n in lsizes},
+            "skeletons": "(pattern of length 3, skeleton of length 4 (5) containing it, point, run "
+                         "direction) with the run a pure bystander",
+            "families": {k: len(v) for k, v in SKELETONS.items()},
+            "family rules": long_mesh_families.__doc__,
+            "symmetries": 8}
         ctx.section("long_mesh_equiv", evaluations=ctx.evals - e0, violations=ctx.nviol - v0)
 
     if want("abort"):
